@@ -75,8 +75,8 @@ def temp_bases(tier):
                                    if scope != 'module' else f'sourcer/expressions: {K}.precompile')
     R, mods = routes.emitted_modules()
     for m in mods:
-        if not isinstance(m, modroute.Emitted):
-            continue
+        if not isinstance(m, modroute.Emitted) or getattr(m, 'route', '') == 'shipped-parser':
+            continue            # the shipped parser's user names (the metagrammar's) are not known here
         user = set()
         for o in routes.walk_objs(getattr(m, 'body', []) or []):
             for k in ('name', 'names', 'params'):
@@ -139,8 +139,8 @@ def run(rep, tier):
     reads = {}
     import symtable
     for m in mods:
-        if not isinstance(m, modroute.Emitted):
-            continue
+        if not isinstance(m, modroute.Emitted) or getattr(m, 'route', '') == 'shipped-parser':
+            continue            # the shipped parser's user names (the metagrammar's) are not known here
         st = symtable.symtable(m.src, '<emitted>', 'exec')
         user_defined = set()
         for o in routes.walk_objs(getattr(m, 'body', []) or []):
@@ -180,8 +180,8 @@ def run(rep, tier):
     # keywords: the callee's own parameter names must lie outside the user identifier space
     nkw = 0
     for m in mods:
-        if not isinstance(m, modroute.Emitted):
-            continue
+        if not isinstance(m, modroute.Emitted) or getattr(m, 'route', '') == 'shipped-parser':
+            continue            # the shipped parser's user names (the metagrammar's) are not known here
         user_kw = {o.d.get('name') for o in routes.walk_objs(getattr(m, 'body', []) or [])
                    if o.cls.name == 'KeywordArg'}
         for fname, callee, named, clash in keyword_capture(m.tree, m.functions, user_kw):
@@ -224,8 +224,8 @@ def run(rep, tier):
     rep.rule('NAME-entry-shadow', 'user parameters are not read inside the generated entry closure')
     n_entry = 0
     for m in mods:
-        if not isinstance(m, modroute.Emitted):
-            continue
+        if not isinstance(m, modroute.Emitted) or getattr(m, 'route', '') == 'shipped-parser':
+            continue            # the shipped parser's user names (the metagrammar's) are not known here
         for cname, cls in m.classes.items():
             for meth in cls.body:
                 if isinstance(meth, ast.FunctionDef) and meth.name == 'parse' and meth.args.args \
